@@ -306,7 +306,7 @@ def fit_corpus():
     r = np.random.default_rng(18)
     weighted = gen_fit_case(r, ["SIR"], "random", dict(obs=["I", "R"], target=["beta", "gamma"], loss="NormalLoss"))
     weighted["weight"] = [0.7, 1.6]
-    return [
+    cases = [
         weighted,
         gen_fit_case(r, ["SIR"], "truth", dict(obs=["I", "R"], target=["beta", "gamma"], loss="SquareLoss")),
         gen_fit_case(r, ["SIR"], "truth", dict(obs=["I"], target=None, loss="GammaLoss")),
@@ -343,6 +343,11 @@ def fit_corpus():
         gen_fit_case(r, ["SIR_norm"], "truth", dict(obs=["I", "R"], target=["beta"], loss="SquareLoss", truth=[4e-9, 0.25],
                                                     x0=[1e8 - 1e3, 1e3, 0.0], T=40.0)),
     ]
+    # the parameters that are not fitted are given their values on the shared model after the loss object was constructed
+    late1 = gen_fit_case(r, ["SIR"], "truth", dict(obs=["I", "R"], target=["beta"], loss="SquareLoss"))
+    late2 = gen_fit_case(r, ["SEIR"], "random", dict(obs=["E", "I"], target=["alpha", "beta"], loss="NormalLoss"))
+    late1["fixed_late"] = late2["fixed_late"] = True
+    return cases + [late1, late2]
 
 
 _MODEL_CACHE = {}
@@ -358,6 +363,11 @@ def build_loss(cfg):
         _MODEL_CACHE[key] = pg.lam(getattr(common_models, cfg["model"])())
     m = _MODEL_CACHE[key]
     m.parameters = dict(zip(M["params"], cfg["truth"]))
+    late = {}
+    if cfg.get("fixed_late") and cfg["target"]:
+        # the parameters that are NOT fitted get their values on the shared model only after the loss object exists
+        late = {p: v for p, v in zip(M["params"], cfg["truth"]) if p not in cfg["target"]}
+        m.parameters = {p: v * 1.4 for p, v in late.items()}
     t = np.array(cfg["times"])
     y = np.array(cfg["y"], dtype=float)
     if y.shape[1] == 1:
@@ -372,6 +382,10 @@ def build_loss(cfg):
     if L == "NormalLoss": kw["sigma"] = cfg["hyper"]
     if L == "GammaLoss": kw["shape"] = cfg["hyper"]
     if L == "NegBinomLoss": kw["k"] = cfg["hyper"]
+    if late:
+        obj = cls(theta0, m, list(cfg["x0"]), np.float64(t[0]), t[1:], y, **kw)
+        m.parameters = late
+        return obj
     if len(cfg["times"]) % 2:
         return cls(theta0, m, list(cfg["x0"]), np.float64(t[0]), t[1:], y, **kw)
     # the caller's own float array, reused for something else once the loss object exists: the fit is about the values given
